@@ -1621,17 +1621,30 @@ where
                         // Clear the buffer
                         self.buffer.clear();
 
-                        let response = self
-                            .receive_server_message(server, &address, &pool, &self.stats.clone())
-                            .await?;
+                        // The rest of the reply can need more than one read, e.g. when
+                        // another statement follows the COPY in the same query.
+                        loop {
+                            let response = self
+                                .receive_server_message(
+                                    server,
+                                    &address,
+                                    &pool,
+                                    &self.stats.clone(),
+                                )
+                                .await?;
 
-                        match write_all_flush(&mut self.write, &response).await {
-                            Ok(_) => (),
-                            Err(err) => {
-                                server.mark_bad(err.to_string().as_str());
-                                return Err(err);
+                            match write_all_flush(&mut self.write, &response).await {
+                                Ok(_) => (),
+                                Err(err) => {
+                                    server.mark_bad(err.to_string().as_str());
+                                    return Err(err);
+                                }
+                            };
+
+                            if !server.is_data_available() {
+                                break;
                             }
-                        };
+                        }
 
                         if !server.in_transaction() {
                             self.stats.transaction();
@@ -1641,7 +1654,7 @@ where
 
                             // Release server back to the pool if we are in transaction mode.
                             // If we are in session mode, we keep the server until the client disconnects.
-                            if self.transaction_mode {
+                            if self.transaction_mode && !server.in_copy_mode() {
                                 break;
                             }
                         }
